@@ -616,6 +616,42 @@ def prolongator_weights(ctx):
               'weight', ctx.where(sm, call))
 
 
+def mesh_axiom(ctx):
+    """A1 is read off BaseMesh.__init__ (the axiom's source pattern)."""
+    from ..core.template import find, has
+    me = ctx.repo.mod('emg3d/meshes.py')
+    init = me.method('BaseMesh', '__init__')
+    ip = au.params(init)
+    for a, ax in enumerate('xyz'):
+        ok = has(f'self.nodes_{ax} = np.r_[0.0, self.h[{a}].cumsum()] + '
+                 f'self.origin[{a}]', init) and has(
+            f'self.cell_centers_{ax} = (self.nodes_{ax}[1:] + '
+            f'self.nodes_{ax}[:-1]) / 2', init)
+        ctx.check('C04.W.mesh_axiom', f'BaseMesh nodes / centres axis {ax}',
+                  ok, 'nodes are not origin + cumulative widths, or cell '
+                  'centres not the node midpoints (axiom A1 used by the '
+                  'weight identity)', ctx.where(me, init), obligation=True)
+    ctx.check('C04.W.mesh_axiom', 'BaseMesh widths and origin stored',
+              has(f'self.origin = np.array({ip[2]})', init) and all(
+                  has(f'np.array({ip[1]}[{a}], dtype=float)', init)
+                  for a in range(3)),
+              'BaseMesh does not store the given widths / origin',
+              ctx.where(me, init))
+    sm = ctx.repo.mod(SOLVER)
+    fn = sm.func('restriction')
+    ps = au.params(fn)
+    cg = find(f'_cg_ = meshes.BaseMesh(_ch_, {ps[0]}.grid.origin)', fn)
+    ok = len(cg) == 1
+    if ok:
+        ok = has(f'{cg[0][1]["_ch_"]} = [np.diff({ps[0]}.grid.nodes_x[::__]), '
+                 f'np.diff({ps[0]}.grid.nodes_y[::__]), '
+                 f'np.diff({ps[0]}.grid.nodes_z[::__])]', fn)
+    ctx.check('C04.M.grid', 'restriction: coarse grid from the fine origin '
+              'and every r-th node', ok, 'coarse grid is not BaseMesh('
+              'differences of every r-th fine node, fine origin)',
+              ctx.where(sm, fn))
+
+
 def run(ctx):
     ctx.explanation = (
         'core.restrict is abstractly interpreted for each of the 7 sc_dir '
@@ -634,5 +670,6 @@ def run(ctx):
         'exact rational arithmetic of the checker; sympy for two formulas']
     restrict_rows(ctx)
     weights(ctx)
+    mesh_axiom(ctx)
     sc_tables(ctx)
     prolongator_weights(ctx)
